@@ -41,6 +41,21 @@ func (s *State) get(name string, sort Sort) Term {
 		return t
 	}
 	var t Term
+	if strings.HasPrefix(name, "A$") {
+		// allocation frontier at the time of the last write to the heap name[2:]
+		switch s.kind {
+		case stEntry, stHavocAll:
+			t = s.get("$alloc", SBV64)
+			s.writes[name] = t
+			return t
+		case stHavocSome:
+			if s.mods[name[2:]] || s.mods["*"] {
+				t = s.get("$alloc", SBV64)
+				s.writes[name] = t
+				return t
+			}
+		}
+	}
 	switch s.kind {
 	case stEntry:
 		switch {
@@ -99,6 +114,12 @@ func (s *State) get(name string, sort Sort) Term {
 func (s *State) set(name string, t Term) {
 	s.writes[name] = t
 	s.vc.noteWrite(name)
+	if len(name) > 2 && name[1] == '$' || strings.HasPrefix(name, "MV$") || strings.HasPrefix(name, "MD$") {
+		switch name[0] {
+		case 'F', 'M', 'B':
+			s.writes["A$"+name] = s.get("$alloc", SBV64)
+		}
+	}
 }
 
 // isFrameLocal: names that unknown calls cannot change (ghost call events are updated
